@@ -26,6 +26,8 @@ type Profile struct {
 	MaxUnits      int
 	MaxDepth      int
 	AnnotateAll   bool // every top-level parameter annotated
+	SharedFields  bool // some records share their field-name set (ambiguous unqualified literals)
+	ManyDecls     bool // at least 3 records and 2 unions
 	InlineRhsOnly bool // tinyfo: a let's right-hand side must start on the let line
 	NoElif        bool
 }
@@ -202,11 +204,18 @@ func (g *Gen) pickDataType(label string) *Type {
 func (g *Gen) genTypeDecls() []*TopItem {
 	var items []*TopItem
 	n := 2 + g.intn(3, "ntypes")
+	if g.P.ManyDecls {
+		n = 5 + g.intn(3, "ntypesMany")
+	}
 	for i := 0; i < n; i++ {
 		label := g.fresh("type")
 		g.curRefs = map[string]bool{}
 		var d *TypeDecl
-		if g.chance(1, 2, "isRecord") {
+		isRec := g.chance(1, 2, "isRecord")
+		if g.P.ManyDecls && i < 5 {
+			isRec = i%2 == 0 // records at 0, 2, 4; unions at 1, 3
+		}
+		if isRec {
 			r := &RecDecl{Name: g.fresh("Rec")}
 			nf := 1 + g.intn(3, "nfields")
 			lower := g.P.LowerFields && g.chance(1, 2, "lowerFields")
@@ -226,6 +235,14 @@ func (g *Gen) genTypeDecls() []*TopItem {
 			d = &TypeDecl{Rec: r}
 			g.Recs = append(g.Recs, r)
 			g.typeLabel[r.Name] = label
+			if g.P.SharedFields && g.chance(1, 2, "twinRecord") {
+				// a second record with exactly the same field names and types
+				twin := &RecDecl{Name: g.fresh("Rec"), Fields: append([]Field{}, r.Fields...)}
+				tl := g.fresh("type")
+				items = append(items, &TopItem{Types: []*TypeDecl{{Rec: twin}}, Label: tl, Refs: keys(g.curRefs)})
+				g.typeLabel[twin.Name] = tl
+				g.label("type: two records with the same field names")
+			}
 		} else {
 			u := &UnionDecl{Name: g.fresh("Uni")}
 			nc := 2 + g.intn(3, "ncases")
